@@ -56,11 +56,12 @@ var (
 	none         = [6]int{}
 	fmTranslate  = [6]int{1000, 0, 0, 1000, 50000, -20000}
 	fmShear      = [6]int{1000, 0, 200, 1000, 0, 0}
+	fmShearY     = [6]int{1000, 200, 0, 1000, 0, 0} // b != 0, c = 0: the other half of the skew term a - bc/d
 	fmAniso      = [6]int{2000, 0, 0, 1000, 0, 0}
 	fmFlipY      = [6]int{1000, 0, 0, -1000, 0, 7000}
 	fmFlipXShift = [6]int{-1000, 0, 0, 1000, 30000, 0}
 	fmRotate     = [6]int{1000, 150, -150, 1000, 12000, 3000}
-	fmClasses    = [][6]int{fmTranslate, fmShear, fmAniso, fmFlipY, fmFlipXShift, fmRotate}
+	fmClasses    = [][6]int{fmTranslate, fmShear, fmShearY, fmAniso, fmFlipY, fmFlipXShift, fmRotate}
 )
 
 func fontCases(n int) []*FontCase {
@@ -122,6 +123,7 @@ func fontCases(n int) []*FontCase {
 			// one font of every outline kind for every class of font matrix
 			{"ttf", "rand", 8, fmTranslate, false}, {"cff", "rand", 8, fmTranslate, false}, {"cid", "rand", 8, fmTranslate, true},
 			{"ttf", "rand", 7, fmShear, false}, {"cff", "mono", 7, fmShear, false}, {"cid", "rand", 7, fmShear, false},
+			{"ttf", "rand", 7, fmShearY, false}, {"cff", "rand", 7, fmShearY, false}, {"cid", "rand", 7, fmShearY, true},
 			{"ttf", "rand", 6, fmAniso, false}, {"cff", "rand", 6, fmAniso, false}, {"cid", "rand", 6, fmAniso, true},
 			{"ttf", "rand", 6, fmFlipY, false}, {"cff", "rand", 6, fmFlipXShift, false}, {"cid", "rand", 6, fmFlipY, false},
 			{"ttf", "rand", 5, fmRotate, false}, {"cff", "rand", 5, fmRotate, false}, {"cid", "rand", 5, fmRotate, true}}
